@@ -40,9 +40,13 @@ def run(prop, tier):
         cfgs = [(bt, kind, "g++") for bt in build.CFG_TYPES for kind in build.CFG_KINDS]
         if not q:
             cfgs += [(bt, kind, "clang++") for bt in ("Debug", "Release") for kind in build.CFG_KINDS]
-        with ThreadPoolExecutor(8) as ex:
-            exes = list(ex.map(lambda c: build.build_cfg(c[0], c[1], cxx=c[2], jobs=4), cfgs))
-        names = ["%s-%s-%s" % c for c in cfgs]
+        # one more "configuration": the library exactly as shipped, i.e. WITHOUT this framework's hook guard defined (all the others have it);
+        # no step budgets there, so it does not get the damaged inputs
+        cfgs.append(("Release", "static", "g++", "noguard"))
+        with ThreadPoolExecutor(9) as ex:
+            exes = list(ex.map(lambda c: build.build_cfg(c[0], c[1], cxx=c[2], jobs=4, guard=len(c) == 3), cfgs))
+        names = ["-".join(c) for c in cfgs]
+        NOGUARD = names[-1]
         nh = 150 if q else 2000
         nf = 200 if q else 3000
         paths, metas, lst = F.make_corpus(os.path.join(wd, "corpus"), nf, first=600000)
@@ -64,7 +68,24 @@ def run(prop, tier):
             p = os.path.join(cdir, "long_zero_run_%d.c3d" % nz)
             open(p, "wb").write(c3dref.encode(content, L))
             longz.append(p)
-        allfiles = paths + c12 + longz
+        # files whose header frame rate and POINT:RATE differ by one unit in the last place, at rates with many decimals (the loader reconciles
+        # the two through a scaled integer comparison: any rounding/contraction difference between builds shows in the loaded header rate)
+        import struct
+        ulp = []
+        for k, rate in enumerate((1000.123, 2000.4567, 960.7, 1234.5678, 4800.333, 839.99, 1000.0001, 59.94006)):
+            content, L, meta = gen.gen_case(C.seed(), 991000 + k, ntsc_ok=False)
+            rb = struct.unpack("<I", struct.pack("<f", rate))[0]
+            sub = content["sub"]
+            for q_ in content["params"]:
+                if q_["name"] == b"RATE" and q_["type"] == 4:
+                    gname = [g["name"] for g in content["groups"] if g["id"] == q_["gid"]][0]
+                    q_["values"] = [rb] if gname == b"POINT" else [struct.unpack("<I", struct.pack("<f", struct.unpack("<f", struct.pack("<I", rb))[0] * sub))[0]]
+            for delta in (-1, 1):
+                content["rate_bits"] = rb + delta
+                p = os.path.join(cdir, "rate_ulp_%d_%s.c3d" % (k, "m" if delta < 0 else "p"))
+                open(p, "wb").write(c3dref.encode(content, {}))
+                ulp.append(p)
+        allfiles = paths + c12 + longz + ulp
         lst = os.path.join(wd, "all.txt")
         open(lst, "w").write("\n".join(allfiles) + "\n")
         import damage
@@ -82,7 +103,8 @@ def run(prop, tier):
         outs = {}
         nper = max(1, C.NCPU // 4)
         nfp = 96 if q else 600
-        nlim = 73      # the single-limit cases of C17 (values at, beyond and far beyond every capacity limit, e.g. INT_MIN)
+        C.run_driver(exes[0], "limits", 1, os.path.join(wd, "count1"), args=["--count", "1", "--pairs", "0"], workers=1)
+        nlim = int(C.parse_out(os.path.join(wd, "count1")).lines["RES"][0][1].split()[2])      # the single-limit cases of C17 (values at, beyond and far beyond every capacity limit, e.g. INT_MIN)
         def runcfg(i):
             o1 = os.path.join(wd, "h_" + names[i])
             o2 = os.path.join(wd, "f_" + names[i])
@@ -90,7 +112,8 @@ def run(prop, tier):
             C.run_driver(exes[i], "loaddump", len(allfiles), o2, args=["--list", lst, "--resave", "1"], workers=nper)
             C.run_driver(exes[i], "fpprobe", nfp, os.path.join(wd, "p_" + names[i]), workers=nper)
             C.run_driver(exes[i], "limits", nlim, os.path.join(wd, "l_" + names[i]), args=["--pairs", "0", "--timeout", "600"], workers=nper, chunk=4)
-            C.run_driver(exes[i], "damage", len(dspecs), os.path.join(wd, "d_" + names[i]), args=["--list", dlst, "--timeout", "60"], workers=nper, chunk=100)
+            if names[i] != NOGUARD:
+                C.run_driver(exes[i], "damage", len(dspecs), os.path.join(wd, "d_" + names[i]), args=["--list", dlst, "--timeout", "60"], workers=nper, chunk=100)
             return o1, o2
         with ThreadPoolExecutor(4) as ex:
             res = list(ex.map(runcfg, range(len(cfgs))))
@@ -129,6 +152,11 @@ def run(prop, tier):
             compared["file"] += 1
             for n in names[1:]:
                 cur = (filtered_log(os.path.join(outs[n][1], "case_%d.log" % i)), sha(os.path.join(outs[n][1], "snap_%d.json" % i)), sha(os.path.join(outs[n][1], "resave_%d.c3d" % i)))
+                if n == NOGUARD:       # the read counter comes from the hook
+                    import re as _re
+                    cur = ([_re.sub(r" reads=\d+", "", l) for l in cur[0]], cur[1], cur[2])
+                    if cur == ([_re.sub(r" reads=\d+", "", l) for l in ref[0]], ref[1], ref[2]):
+                        continue
                 if cur != ref:
                     what = "outcome" if [l for l in cur[0] if not l.startswith("RES")] != [l for l in ref[0] if not l.startswith("RES")] else "reads_or_result" if cur[0] != ref[0] else "loaded_snapshot" if cur[1] != ref[1] else "resaved_bytes"
                     viols.append(dict(prop="C19", key="config_dependent/file/" + what, detail="%s: %s vs %s differ in %s" % (os.path.basename(allfiles[i]), base, n, what), case=i, files=[allfiles[i]]))
@@ -169,12 +197,12 @@ def run(prop, tier):
                 return out
             ref = outcome(base)
             compared["damaged_input"] += 1
-            for n in names[1:]:
+            for n in [x for x in names[1:] if x != NOGUARD]:
                 cur = outcome(n)
                 if cur != ref:
                     viols.append(dict(prop="C19", key="config_dependent/damaged_input_outcome", detail="%s: %s gives %s, %s gives %s" % (dspecs[i].split("|", 1)[1], base, ref[-1:], n, cur[-1:]), case=i))
                     break
-        cov = dict(evaluations=(nh + len(allfiles) + nfp + nlim + len(dspecs)) * len(cfgs), distinct_nontrivial=nh + len(allfiles) + nfp + nlim + len(set(dspecs)),
+        cov = dict(evaluations=(nh + len(allfiles) + nfp + nlim) * len(cfgs) + len(dspecs) * (len(cfgs) - 1), distinct_nontrivial=nh + len(allfiles) + nfp + nlim + len(set(dspecs)),
                    rule="each seeded API history (with final save) and each corpus / pattern file (load, snapshot, re-save) is executed by the same driver linked against every configuration of the library built by the repository's CMake; filtered event logs (operations, outcomes incl. exception classes, monitor lines), snapshot JSON and SHA-256 of saved files must be identical to the first configuration; plus a floating-point-environment probe (rates at the extremes of the float range driving the library's only float arithmetic); distinct = distinct workload items",
                    samples=[dict(configurations=names), dict(history_args=hargs), dict(file=os.path.basename(allfiles[0]))], configurations=names,
                    items_compared=dict(compared), child_end_status_all_configs=dict(statuses))
